@@ -6,6 +6,7 @@ import GdcVerif.Lemmas.DctHuff
 import GdcVerif.Lemmas.DctColour
 import GdcVerif.Lemmas.DctPass
 import GdcVerif.Lemmas.DctBlock
+import GdcVerif.Lemmas.DctRgb
 import GdcVerif.Spec.T81ZigZag
 /-!
   C11 — JPEG DCT codecs (Baseline / Extended): loss bounded by the declared quantisation.  PARTIAL.
@@ -31,7 +32,8 @@ import GdcVerif.Spec.T81ZigZag
   * `c11_bound_block`, `c11_bound_grey8`: THE BOUND ITSELF for the 8-bit greyscale path — every block, every table,
     every image size, every quality: |decoded − source| ≤ (1/8)·Σ C(u)C(v)·Q[u,v] + 2 (exact integer form), on the
     model built from the generated passes.
-  NOT proved: the bound for RGB (composition through the colour matrices) and for 12-bit (float IDCT);
+  * `c11_bound_rgb`: the RGB bound through the colour matrix, with an allowance < 7 (the property says 5).
+  NOT proved: the RGB allowance 5 and the bound for 12-bit (float IDCT);
   `c11_bound_FullStatement` (all codecs, real functions) stays a `def` and is searched.
 -/
 namespace Dct
@@ -241,11 +243,37 @@ theorem c11_bound_grey8 (img : Blk) (w h : Nat) (base : Array Int) (quality : In
 example : withinF 9 (tableF (scaleQuantTable DefaultLuminanceQuantTable 100)) ∧
     ¬ withinF 10 (tableF (scaleQuantTable DefaultLuminanceQuantTable 100)) := by decide
 
+/-- (11) C11 for 8-bit RGB (baseline 4:4:4) on the model: planes by the GENERATED rgbToYCbCr body (with edge
+    replication), each plane block by block through `blockF` with its own table (Y: qY, Cb/Cr: qC), the GENERATED
+    ycbcrToRGB per pixel (tied end to end to baseline.Encode/Decode by `jpg-rgbimage`).  For every image size, every pair of
+    tables with entries ≥ 1 (in particular ScaleQuantTable of any quality), every pixel inside the image, with
+    B(q) = LinB q / 2^30 ≤ (1/8)·Σ C(u)C(v)·q[u,v]:
+        |R' − r| ≤ B(qY) + 1.402·B(qC) + 5.75      (= 1.44·2.402 + 2.289)
+        |G' − g| ≤ B(qY) + 1.058·B(qC) + 5.96      (= 1.44·2.058 + 3)
+        |B' − b| ≤ B(qY) + 1.772·B(qC) + 6.59      (= 1.44·2.772 + 2.594)
+    stated exactly in integers (units 2^-58/65536).  The table part is the property's bound propagated through the colour
+    matrix; the ALLOWANCE obtained by composition is below 7, NOT the property's 5: the per-component rounding budget 1.44
+    enters 2.4–2.8 times, and the colour round trip (2) and the floors of ycbcrToRGB (≤ 1) add on top.  The property's
+    allowance 5 is not provable by this composition; it is what the search observes. -/
+theorem c11_bound_rgb (img : Rgb) (w h : Nat) (qY qC : Blk)
+    (himg : ∀ y x, (0 ≤ (img y x).1 ∧ (img y x).1 ≤ 255) ∧ (0 ≤ (img y x).2.fst ∧ (img y x).2.fst ≤ 255) ∧ (0 ≤ (img y x).2.snd ∧ (img y x).2.snd ≤ 255))
+    (hqY : ∀ v k, 1 ≤ qY v k) (hqC : ∀ v k, 1 ≤ qC v k) (X Y : Nat) (hX : X < w) (hY : Y < h) :
+    let o := decodedRgb img w h qY qC X Y
+    let K : Int := 415051741658464912
+    let s : Int := 288230376151711744
+    (-(65536 * (K + 268435456 * LinB qY) + 91881 * (K + 268435456 * LinB qC) + 150000 * s) ≤ s * (65536 * (o.1 - (img Y X).1)) ∧
+      s * (65536 * (o.1 - (img Y X).1)) ≤ 65536 * (K + 268435456 * LinB qY) + 91881 * (K + 268435456 * LinB qC) + 150000 * s) ∧
+    (-(65536 * (K + 268435456 * LinB qY) + (22554 + 46802) * (K + 268435456 * LinB qC) + 196608 * s) ≤ s * (65536 * (o.2.fst - (img Y X).2.fst)) ∧
+      s * (65536 * (o.2.fst - (img Y X).2.fst)) ≤ 65536 * (K + 268435456 * LinB qY) + (22554 + 46802) * (K + 268435456 * LinB qC) + 196608 * s) ∧
+    (-(65536 * (K + 268435456 * LinB qY) + 116130 * (K + 268435456 * LinB qC) + 170000 * s) ≤ s * (65536 * (o.2.snd - (img Y X).2.snd)) ∧
+      s * (65536 * (o.2.snd - (img Y X).2.snd)) ≤ 65536 * (K + 268435456 * LinB qY) + 116130 * (K + 268435456 * LinB qC) + 170000 * s) :=
+  rgb_bound img w h qY qC himg hqY hqC X Y hX hY
+example : LinB (tableF (scaleQuantTable DefaultLuminanceQuantTable 100)) = 67108864 + 93085696 * 14 + 129117769 * 49 := by decide
+
 /-- The full property for ALL codecs of C11, over the (unmodelled as a whole) real encoder/decoder pairs: `enc`/`dec`
     stand for baseline/extended Encode/Decode, `bound s i` for the numerator (over `den`) of the DQT bound of sample i of
-    stream s (through the colour matrix for RGB), `allow` = 2 (5 RGB).  PROVED INSTANCE: 8-bit greyscale on the model,
-    `c11_bound_grey8`.  NOT proved: RGB (the block theorem per component and `c11_colour_roundtrip` exist, but the
-    composition quantisation-error-through-the-inverse-colour-matrix is missing), 12-bit (float IDCT of
+    stream s (through the colour matrix for RGB), `allow` = 2 (5 RGB).  PROVED INSTANCES: 8-bit greyscale on the model with the property's allowance 2
+    (`c11_bound_grey8`); 8-bit RGB with an allowance below 7 instead of 5 (`c11_bound_rgb`).  NOT proved: the RGB allowance 5, 12-bit (float IDCT of
     decodeSequential12 has no model), and the composition with Huffman table construction and the container. -/
 def c11_bound_FullStatement (enc : List Int → Option (List Nat)) (dec : List Nat → Option (List Int))
     (bound : List Nat → Nat → Int) (den allow : Int) : Prop :=
